@@ -5,8 +5,14 @@
      "ok"        the session answered healthy before the timeout
      "fail"      the session answered unhealthy before the timeout
      "timeout"   no answer before the timeout (and none later)
-     "late_ok" / "late_fail"   no answer before the timeout; the answer arrives while the NEXT check is
-                 in progress.  For the property this is a timeout: the late answer must not count.
+     "lateP_ok" / "lateP_fail"  (P = 0..3)  the check outlasts its timeout and the session answers late:
+                 P=0  after the timeout timer fired, before the checker has taken the timeout
+                 P=1  after the timeout was counted, before the next check starts
+                 P=2  while the next check is in progress
+                 P=3  after the next check was counted, before the one after it starts
+                 One check contributes exactly ONE result.  For P >= 1 that result is the timeout and the late
+                 answer must not count.  For P = 0 answer and timeout signal are both pending: either may be
+                 the result (Counts), never both.
    The checker owns condition "A" (FAILED_ACTIVE_HC) of the host's flag word; other conditions ("B") are
    not its business.  Counters are written as the code writes them; the property is stated on the
    history of results (ExactOnHistory), and TLC checks that the counters implement it. *)
@@ -15,6 +21,7 @@ EXTENDS Integers, Sequences, FiniteSets, TLC, Json
 CONSTANTS Thresholds,  \* configured values; 0 = not configured = default 1
           Results,     \* alphabet of check results
           MaxLen,      \* length of result sequences
+          WithB,       \* TRUE: initial words also over the foreign condition "B"
           Defects      \* {} | {"NoResetOnOpposite"} | {"OffByOne"}
 
 VARIABLES ut, ht,      \* unhealthy_threshold, healthy_threshold as configured
@@ -22,22 +29,26 @@ VARIABLES ut, ht,      \* unhealthy_threshold, healthy_threshold as configured
           word,        \* flag word of the host
           pword,       \* flag word before the last check
           okCnt, failCnt,   \* healthCount / unHealthCount
-          hist,        \* results so far
+          hist,        \* results so far, as they count: "ok" or not
+          script,      \* what the checks did (elements of Results)
           changed,     \* "changed" reported to the callbacks for the last check
           cbok         \* "isHealthy" reported to the callbacks for the last check
-vars == <<ut, ht, w0, word, pword, okCnt, failCnt, hist, changed, cbok>>
+vars == <<ut, ht, w0, word, pword, okCnt, failCnt, hist, script, changed, cbok>>
 
 Eff(t) == IF t = 0 THEN 1 ELSE t
 IsOk(r) == r = "ok"
+(* how a check may count *)
+Counts(r) == IF r = "ok" THEN {"ok"} ELSE IF r = "late0_ok" THEN {"ok", "timeout"} ELSE IF r = "fail" THEN {"fail"} ELSE {"timeout"}
 Healthy(w) == w = {}
 Reached(c, th) == IF "OffByOne" \in Defects THEN c = th + 1 ELSE c = th
 
-InitWords == SUBSET {"A", "B"}
+InitWords == IF WithB THEN SUBSET {"A", "B"} ELSE SUBSET {"A"}
 Init == /\ ut \in Thresholds /\ ht \in Thresholds /\ w0 \in InitWords /\ word = w0 /\ pword = w0
-        /\ okCnt = 0 /\ failCnt = 0 /\ hist = <<>> /\ changed = FALSE /\ cbok = FALSE
+        /\ okCnt = 0 /\ failCnt = 0 /\ hist = <<>> /\ script = <<>> /\ changed = FALSE /\ cbok = FALSE
 
-Check(r) ==
-  /\ hist' = Append(hist, r) /\ pword' = word /\ cbok' = IsOk(r)
+(* a check that did s is counted as r *)
+Check(s, r) ==
+  /\ script' = Append(script, s) /\ hist' = Append(hist, r) /\ pword' = word /\ cbok' = IsOk(r)
   /\ UNCHANGED <<ut, ht, w0>>
   /\ IF IsOk(r)
      THEN /\ failCnt' = IF "NoResetOnOpposite" \in Defects THEN failCnt ELSE 0
@@ -53,7 +64,7 @@ Check(r) ==
                                                    ELSE word' = word /\ changed' = FALSE
              ELSE UNCHANGED <<failCnt, word>> /\ changed' = FALSE
 
-Next == Len(hist) < MaxLen /\ \E r \in Results : Check(r)
+Next == Len(hist) < MaxLen /\ \E s \in Results : \E r \in Counts(s) : Check(s, r)
 Spec == Init /\ [][Next]_vars
 
 (* ---- the property, on the history ---- *)
@@ -76,5 +87,5 @@ ExactOnHistory ==
 SetToSeq(S) == LET RECURSIVE F(_)
                    F(T) == IF T = {} THEN <<>> ELSE LET x == CHOOSE y \in T : TRUE IN <<x>> \o F(T \ {x})
                IN F(S)
-EmitCases == Len(hist) = MaxLen => PrintT(<<"CASE", ToJson([ut |-> ut, ht |-> ht, init |-> SetToSeq(w0), seq |-> hist])>>)
+EmitCases == Len(hist) = MaxLen => PrintT(<<"CASE", ToJson([ut |-> ut, ht |-> ht, init |-> SetToSeq(w0), seq |-> script])>>)
 ====
